@@ -37,13 +37,13 @@ theorem key_collision_counterexample :
     joinKey [[97, 59, 59, 98], [99]] = joinKey [[97], [98, 59, 59, 99]] ∧
     ([[97, 59, 59, 98], [99]] : List Str) ≠ [[97], [98, 59, 59, 99]] := by
   constructor
-  · simp [joinKey, semi_eq]
+  · simp [joinKey, Split.join2, semi_eq]
   · decide
 
 /-- and an identifier ending in `;` migrates its last character (F-C14-b) -/
 theorem key_trailing_semi_counterexample :
     splitKey (joinKey [[97, 59], [98]]) = [[97], [59, 98]] := by
-  simp [splitKey, joinKey, splitAux, semi_eq]
+  simp [splitKey, joinKey, Split.split2, Split.join2, Split.split2Aux, semi_eq]
 
 /-- every session id handed out resolves to exactly the path it was created for -/
 theorem sid_resolves (rnd : Str) (p : List Str) (hp : SepFree p)
@@ -56,9 +56,9 @@ theorem sid_resolves (rnd : Str) (p : List Str) (hp : SepFree p)
 /-- non-vacuity: an ordinary path satisfies both guards -/
 example : SepFree [[100, 105], [99, 49], [103]] ∧
     (∀ c, (joinKey [[100, 105], [99, 49], [103]]).getLast? = some c → isWs c = false) := by
-  refine ⟨by simp [SepFree, Inner, hasDiv, semi_eq], ?_⟩
+  refine ⟨by simp [SepFree, Split.SepFree, Split.Inner, Split.hasDiv, semi_eq], ?_⟩
   intro c hc
-  simp [joinKey, semi_eq] at hc
+  simp [joinKey, Split.join2, semi_eq] at hc
   subst hc; simp [isWs_eq]
 
 end Idpy.Props.C14
